@@ -522,6 +522,9 @@ class Interp:
             if self.truth(self.eval(e.test, env), e.test):
                 return self.eval(e.body, env)
             return self.eval(e.orelse, env)
+        if isinstance(e, ast.Yield):
+            self.w.on_yield(self, self.eval(e.value, env) if e.value is not None else NONE, e)
+            return NONE
         if isinstance(e, ast.JoinedStr):
             return Opaque("fstring")
         if isinstance(e, (ast.ListComp, ast.GeneratorExp, ast.SetComp, ast.DictComp)):
